@@ -23,7 +23,7 @@ use serde_json::json;
 pub static INFO: PropInfo = PropInfo {
     id: "C14",
     run,
-    rule: "cases: every one of the 22 standard gates x every n in 1..=4 (quick) / 1..=5 (thorough) x every injective placement of the gate's qubits into 0..n (enumerated completely) x a parameter set for the 9 parameterised gates {0, pi/2 as `pi/2`, -pi/2, pi as `pi`, 1, -(0.75) as a prefix expression, 600 (quick) / 3000 (thorough) seed-dependent random angles in [-2pi, 2pi]}. Each case is observed through Gate::to_unitary(n) and through Program::to_unitary(n) of the one-gate program and compared entry-wise (1e-9 absolute, after the conditioning filter) with the specification matrix lifted by bit arithmetic. Every case is a distinct (gate, n, placement, parameter) and counts as non-trivial when at least one path returned a matrix.",
+    rule: "cases: every one of the 22 standard gates x every n in 1..=4 (quick) / 1..=5 (thorough) x every injective placement of the gate's qubits into 0..n (enumerated completely) x a parameter set for the 9 parameterised gates {0, pi/2 as `pi/2`, -pi/2, pi as `pi`, 1, -(0.75) as a prefix expression, 600 (quick) / 3000 (thorough) seed-dependent random angles (half in [-2pi, 2pi], the rest up to +-8pi, multiples of pi/2, magnitudes up to 1000 and tiny angles) plus 2pi, 3pi, -2.5pi, 7pi, -(9), 100}. Each case is observed through Gate::to_unitary(n) and through Program::to_unitary(n) of the one-gate program and compared entry-wise (1e-9 absolute, after the conditioning filter) with the specification matrix lifted by bit arithmetic. Every case is a distinct (gate, n, placement, parameter) and counts as non-trivial when at least one path returned a matrix.",
     assumptions: &[
         "the specification matrices in model/numeric_gates.rs are those of the Quil specification, section Standard Gates (first listed qubit = most significant bit of the gate's own matrix)",
         "parameters are real constants presented as Number, `pi`, `pi/d` or a prefix minus of a Number",
@@ -42,7 +42,7 @@ const TOL: f64 = 1e-9;
 /// perturbed parameters must move by less than TOL/10, otherwise the case is ill-conditioned.
 fn well_conditioned(name: &str, theta: f64, reference: &Mat) -> bool {
     for s in [-1.0, 1.0] {
-        let t = theta * (1.0 + s * 1e-11) + s * 1e-13;
+        let t = theta * (1.0 + s * 1e-14) + s * 1e-13;
         match spec_matrix(name, t) {
             Some(m) => {
                 if m.max_abs_diff(reference).0 > TOL / 10.0 {
@@ -89,6 +89,13 @@ fn run(ctx: &mut Ctx) {
         ParamForm::Pi,
         ParamForm::Num(1.0),
         ParamForm::Neg(0.75),
+        // more than one turn: RX/RY/RZ have period 4 pi, the phase gates 2 pi
+        ParamForm::Num(2.0 * std::f64::consts::PI),
+        ParamForm::Num(3.0 * std::f64::consts::PI),
+        ParamForm::Num(-2.5 * std::f64::consts::PI),
+        ParamForm::Num(7.0 * std::f64::consts::PI),
+        ParamForm::Neg(9.0),
+        ParamForm::Num(100.0),
     ];
     for _ in 0..n_random {
         param_set.push(ParamForm::Num(random_angle(&mut grng)));
